@@ -155,15 +155,21 @@ let own_map step show after s (a : string list) =
   | ["get_ownkey"; k] -> via k (fun _ -> k) (fun _ -> MGet (ks k))
   | ["remove_ownkey"; k] -> via k (fun _ -> k) (fun _ -> MRemove (ks k))
   | ["set_pair"; k; v] -> let (s', r) = step s (MSet (ks k, ks v)) in Some (s', show_out r)
-  | [("get_keys_into" | "get_values_into" | "get_pairs_into") as o; ("A" | "L" | "D")] ->
-    (* non-NULL form: the results are appended to the caller's list, which already holds "pre" *)
+  | ("get_keys_into" | "get_values_into" | "get_pairs_into") as o :: ("A" | "L" | "D") :: cnt ->
+    (* non-NULL form: the results are appended to the caller's list, which already holds "pre" (no count
+       given) or the N objects pa, pb, .. (N = 0..5): the ideal result is  old ++ keys *)
+    let old = (match cnt with
+        | [] -> ["pre"]
+        | [n] -> let n = int_of_string n in
+          if n < 0 || n > 5 then failwith "bad-op" else List.init n (fun i -> "p" ^ String.make 1 (Char.chr (97 + i)))
+        | _ -> failwith "bad-op") in
     let op = (match o with "get_keys_into" -> MGetKeys | "get_values_into" -> MGetValues | _ -> MGetPairs) in
     let (s', r) = step s op in
     let items = (match r with
         | OTexts l -> List.map string_of_key l
         | OPairs l -> List.map (fun p -> ppr (Some p)) l
         | _ -> failwith "bad-op") in
-    Some (s', "[" ^ String.concat "," ("pre" :: items) ^ "]")
+    Some (s', "[" ^ String.concat "," (old @ items) ^ "]")
   | _ -> None
 
 (* dup: the state after `fork` (copy current, original still reachable through its header);
@@ -226,11 +232,33 @@ let history_c ?(catch = (fun (_ : exn) -> (None : string option))) step parse ow
 
 let no_after _ _ = ()
 
+(* DEPTH stratum (`deep:N` first; see harness/cont.c): containers of 10^4 .. 10^6 elements are beyond the
+   extracted models (their list functions are not tail-recursive and a read-back is quadratic).  The oracle
+   sits on the implementation side - the harness checks count, positions, order and identity against its own
+   array of the N objects and prints `name=ok` - and the ideal side says what a correct class prints: `ok`
+   for the build, every scenario and the deletion. *)
+let deep_names = [
+  ("list", ["get"; "iterate"; "to_array"; "dup"; "reverse"; "find_last"; "remove_last"; "remove_at_last"; "insert_last"]);
+  ("vector", ["iterate"; "to_array"; "dup"; "find_last"; "insert_last"; "remove_last"]);
+  ("map", ["iterate"; "get_keys"; "get_values"; "get_pairs"; "get_keys_into"; "get_values_into"; "get_pairs_into"; "dup";
+           "get_last"; "set_last"; "remove_last"]) ]
+let deep iface (ol : string list) : string =
+  match List.assoc_opt iface deep_names, ol with
+  | Some names, first :: rest ->
+    let n = (try int_of_string (String.sub first 5 (String.length first - 5)) with _ -> -1) in
+    (* the scenarios that look at the last element need one *)
+    let needs_one o = List.mem o ["find_last"; "remove_last"; "remove_at_last"; "insert_last"; "get_last"; "set_last"] in
+    if n < 0 || n > 4000000 then "DRIVER-ERROR:bad-size"
+    else if List.exists (fun o -> not (List.mem o names) || (n = 0 && needs_one o)) rest then "DRIVER-ERROR:bad-op"
+    else String.concat "" (List.map (fun o -> o ^ "=ok| ; ") (("build" :: rest) @ ["del"])) ^ "end"
+  | _ -> "DRIVER-ERROR:bad-interface"
+
 let run = function
   | [iface; cls; ops] ->
     if not (List.mem cls ["array"; "linked_list"; "dlinked_list"]) then "DRIVER-ERROR:bad-class" else begin
       next_id := 0;
       let ol = String.split_on_char ';' ops in
+      if String.length ops >= 5 && String.sub ops 0 5 = "deep:" then deep iface ol else
       let nobd _ = "" in
       let fin _ _ = "end" in
       (* the ideal objects are values: a copy IS the state, with the identities of the originals (the
